@@ -21,6 +21,7 @@ LEVEL_NOTE = ('Decides C01 for every analysed definition and every input by auto
 def run(ctx, rep):
     crate = ctx.mir('ws-default')['logos_codegen']
     cg.rule_dfa_config(rep, crate)
+    cg.rule_dfa_heuristics(rep, crate)
     from props import c08
     c08.rule_state_type(rep, crate)
     # both runtimes hand the automaton the source's own bytes: read(offset) is the byte-level sub-slice at offset, None only at the end
